@@ -55,11 +55,12 @@ type Sel struct {
 	// to this field in the operation, in document order
 	QDirs []string `json:"qdirs"`
 
-	SkipSrc string `json:"-"` // "" | lit | var
-	InclSrc string `json:"-"`
-	DfrSrc  string `json:"-"` // "" no @defer | "bare" | "lit" | "var"
-	Args    string `json:"-"`
-	FDir    string `json:"-"` // extra query-side directive text
+	SkipSrc   string `json:"-"` // "" | lit | var
+	InclSrc   string `json:"-"`
+	InclFirst bool   `json:"-"` // render @include before @skip
+	DfrSrc    string `json:"-"` // "" no @defer | "bare" | "lit" | "var"
+	Args      string `json:"-"`
+	FDir      string `json:"-"` // extra query-side directive text
 }
 
 type Frag struct {
@@ -145,18 +146,22 @@ func renderSels(o *Op, sels []*Sel) string {
 }
 
 func dirText(o *Op, s *Sel) string {
-	out := ""
+	skip, incl := "", ""
 	switch s.SkipSrc {
 	case "lit":
-		out += fmt.Sprintf(" @skip(if: %v)", s.Skip)
+		skip = fmt.Sprintf(" @skip(if: %v)", s.Skip)
 	case "var":
-		out += fmt.Sprintf(" @skip(if: $%s)", o.boolVar(s.Skip))
+		skip = fmt.Sprintf(" @skip(if: $%s)", o.boolVar(s.Skip))
 	}
 	switch s.InclSrc {
 	case "lit":
-		out += fmt.Sprintf(" @include(if: %v)", s.Incl)
+		incl = fmt.Sprintf(" @include(if: %v)", s.Incl)
 	case "var":
-		out += fmt.Sprintf(" @include(if: $%s)", o.boolVar(s.Incl))
+		incl = fmt.Sprintf(" @include(if: $%s)", o.boolVar(s.Incl))
+	}
+	out := skip + incl
+	if s.InclFirst {
+		out = incl + skip
 	}
 	lab := ""
 	if s.Label != "" {
@@ -366,9 +371,10 @@ func (g *opGen) withSkip(s *Sel) *Sel {
 		s.Skip = g.r.Intn(2) == 0
 		s.SkipSrc = []string{"lit", "var"}[g.r.Intn(2)]
 	}
-	if g.r.Intn(8) == 0 {
+	if g.r.Intn(8) == 0 || (s.SkipSrc != "" && g.r.Intn(3) == 0) {
 		s.Incl = g.r.Intn(3) != 0
 		s.InclSrc = []string{"lit", "var"}[g.r.Intn(2)]
+		s.InclFirst = g.r.Intn(2) == 0
 	}
 	return s
 }
